@@ -49,6 +49,11 @@ func networkRoots(w *World, r *Run, rule string) []*ssa.Function {
 	}
 	for _, fn := range w.prodFns() {
 		if pkgPathOf(fn) == pClient && fn.Parent() == nil && fn.Synthetic == "" {
+			// the serverless feeder's fetcher constructor (wherever it lives) runs once at start-up on the configured URL:
+			// its refusal of an unsupported scheme is decided by the configuration rules (C17), not by network input
+			if funcName(fn) == modPath+"/internal/feeder/serverless.newFetcher" {
+				continue
+			}
 			roots = append(roots, fn)
 		}
 	}
